@@ -152,6 +152,29 @@ channel_accept_writes(struct channel* self, uint32_t tf)
 }
 
 void
+channel_start_new_lap_if_drained(struct channel* self)
+{
+    lock_acquire(&self->lock);
+    int is_drained = 1;
+    for (uint32_t i = 0; i < self->holds.n; ++i) {
+        is_drained &= (self->holds.pos[i] == self->head &&
+                       self->holds.cycles[i] == self->cycle);
+    }
+    if (is_drained && self->head > 0) {
+        // same transition as a wrapping write with every reader caught up
+        self->high = self->head;
+        self->head = 0;
+        self->mapped = 0;
+        ++self->cycle;
+        for (uint32_t i = 0; i < self->holds.n; ++i) {
+            self->holds.pos[i] = 0;
+            self->holds.cycles[i] = self->cycle;
+        }
+    }
+    lock_release(&self->lock);
+}
+
+void
 channel_abort_write(struct channel* self)
 {
     lock_acquire(&self->lock);
